@@ -1,6 +1,8 @@
 (* C15 - restricting the stages makes an evaluation a side-effect-free dry run.  Proofs: L4_Eval/StageProofs.v *)
 From Coq Require Import List String Arith.
-From DDS Require Import Base.Bytes L4_Eval.Stages L4_Eval.StageProofs.
+From Coq Require Import ZArith NArith.
+From DDS Require Import Base.Bytes L4_Eval.Stages L4_Eval.StageProofs L0_Hash.PyVal L3_Sig.Program L3_Sig.Sig L4_Eval.DdsEval
+     L4_Eval.EvalSpec L4_Eval.EvalProofs.
 Import ListNotations.
 
 (* The accepted stage lists are exactly the prefixes of the stage order, spelled with names or enum members. *)
@@ -24,3 +26,26 @@ Print Assumptions C15_gates.
 Theorem C15_constants_ok : stage_constants_ok = true.
 Proof. exact stage_constants. Qed.
 Print Assumptions C15_constants_ok.
+
+(* An evaluation restricted before EVAL runs no user code, writes no blob and commits no path: the state (store and
+   execution log) is unchanged and the result is None. *)
+Theorem C15_analysis_only_pure : forall H mx c f sty pos kw s,
+  has_stage Eval (c_stages c) = false ->
+  snd (dds_call H mx c f sty pos kw s) = s /\
+  (forall x sp, analysis H mx c f sty pos kw s = inr (x, sp) -> fst (dds_call H mx c f sty pos kw s) = Ret (RVal VNone)).
+Proof. exact analysis_only_pure. Qed.
+Print Assumptions C15_analysis_only_pure.
+
+(* One that stops before PATH_COMMIT leaves every path as it was. *)
+Theorem C15_no_commit_keeps_paths : forall H mx c f sty pos kw s,
+  has_stage PathCommit (c_stages c) = false -> s_paths (snd (dds_call H mx c f sty pos kw s)) = s_paths s.
+Proof. exact no_commit_keeps_paths. Qed.
+Print Assumptions C15_no_commit_keeps_paths.
+
+(* The signatures computed by a later evaluation are the same as if the restricted run had not happened: the analysis
+   reads the store only through its committed paths, which a restricted run does not change; the values returned later
+   are the plain values because the store stays sound (C01_history_sound covers restricted calls). *)
+Theorem C15_signatures_unaffected : forall H mx c f sty pos kw s1 s2,
+  s_paths s1 = s_paths s2 -> analysis H mx c f sty pos kw s1 = analysis H mx c f sty pos kw s2.
+Proof. exact analysis_paths_only. Qed.
+Print Assumptions C15_signatures_unaffected.
